@@ -112,7 +112,7 @@ theorem litBody_esc {e : Nat} {t : Str} (ht : litBody t = true) : litBody (92 ::
 theorem hexDigit_clean (n : Nat) : hexDigit n ≠ 34 ∧ hexDigit n ≠ 92 := by
   simp only [hexDigit]; split <;> omega
 
-/-- whatever strconv.Quote writes for one character is a complete piece of a literal body -/
+/-- whatever quoteJSON writes for one character is a complete piece of a literal body -/
 theorem litBody_quoteChar (c : Nat) : litBody (quoteChar c) = true := by
   have hx := hexDigit_clean
   by_cases h34 : c = 34
@@ -125,8 +125,6 @@ theorem litBody_quoteChar (c : Nat) : litBody (quoteChar c) = true := by
     show (c != 34 && c != 92) = true
     simp [h34, h92]
   have hp' : isPrint c = false := by simpa using hp
-  by_cases h7 : c = 7
-  · subst h7; decide
   by_cases h8 : c = 8
   · subst h8; decide
   by_cases h12 : c = 12
@@ -137,40 +135,38 @@ theorem litBody_quoteChar (c : Nat) : litBody (quoteChar c) = true := by
   · subst h13; decide
   by_cases h9 : c = 9
   · subst h9; decide
-  by_cases h11 : c = 11
-  · subst h11; decide
-  by_cases hctl : c < 32 ∨ c = 127
-  · have hq : quoteChar c = [92, 120, hexDigit (c / 16), hexDigit (c % 16)] := by
-      simp [quoteChar, h34, h92, hp', h7, h8, h12, h10, h13, h9, h11, hctl]
-    rw [hq]
-    exact litBody_esc (litBody_of_clean (by
-      intro x hxm
-      simp only [List.mem_cons, List.not_mem_nil, or_false] at hxm
-      rcases hxm with rfl | rfl <;> exact hx _))
   by_cases hbig : c < 0x10000
   · have hq : quoteChar c = [92, 117, hexDigit (c / 4096), hexDigit (c / 256 % 16), hexDigit (c / 16 % 16),
         hexDigit (c % 16)] := by
-      have a1 : ¬ c < 32 := by omega
-      have a2 : c ≠ 127 := by omega
-      simp [quoteChar, h34, h92, hp', h7, h8, h12, h10, h13, h9, h11, a1, a2, hbig]
+      simp [quoteChar, h34, h92, hp', h8, h12, h10, h13, h9, hbig]
     rw [hq]
     exact litBody_esc (litBody_of_clean (by
       intro x hxm
       simp only [List.mem_cons, List.not_mem_nil, or_false] at hxm
       rcases hxm with rfl | rfl | rfl | rfl <;> exact hx _))
-  · have hq : quoteChar c = [92, 85, hexDigit (c / 0x10000000 % 16), hexDigit (c / 0x1000000 % 16),
-        hexDigit (c / 0x100000 % 16), hexDigit (c / 0x10000 % 16), hexDigit (c / 4096 % 16),
-        hexDigit (c / 256 % 16), hexDigit (c / 16 % 16), hexDigit (c % 16)] := by
-      have a1 : ¬ c < 32 := by omega
-      have a2 : c ≠ 127 := by omega
-      simp [quoteChar, h34, h92, hp', h7, h8, h12, h10, h13, h9, h11, a1, a2, hbig]
+  · have hq : ∃ a1 a2 a3 a4 b1 b2 b3 b4, quoteChar c
+        = [92, 117, hexDigit a1, hexDigit a2, hexDigit a3, hexDigit a4, 92, 117, hexDigit b1, hexDigit b2,
+           hexDigit b3, hexDigit b4] := by
+      refine ⟨(0xD800 + (c - 0x10000) / 1024) / 4096, (0xD800 + (c - 0x10000) / 1024) / 256 % 16,
+        (0xD800 + (c - 0x10000) / 1024) / 16 % 16, (0xD800 + (c - 0x10000) / 1024) % 16,
+        (0xDC00 + (c - 0x10000) % 1024) / 4096, (0xDC00 + (c - 0x10000) % 1024) / 256 % 16,
+        (0xDC00 + (c - 0x10000) % 1024) / 16 % 16, (0xDC00 + (c - 0x10000) % 1024) % 16, ?_⟩
+      simp [quoteChar, h34, h92, hp', h8, h12, h10, h13, h9, hbig]
+    obtain ⟨a1, a2, a3, a4, b1, b2, b3, b4, hq⟩ := hq
     rw [hq]
-    exact litBody_esc (litBody_of_clean (by
-      intro x hxm
-      simp only [List.mem_cons, List.not_mem_nil, or_false] at hxm
-      rcases hxm with rfl | rfl | rfl | rfl | rfl | rfl | rfl | rfl <;> exact hx _))
+    have h2 : litBody [92, 117, hexDigit b1, hexDigit b2, hexDigit b3, hexDigit b4] = true :=
+      litBody_esc (litBody_of_clean (by
+        intro x hxm
+        simp only [List.mem_cons, List.not_mem_nil, or_false] at hxm
+        rcases hxm with rfl | rfl | rfl | rfl <;> exact hx _))
+    have h1 : litBody [92, 117, hexDigit a1, hexDigit a2, hexDigit a3, hexDigit a4] = true :=
+      litBody_esc (litBody_of_clean (by
+        intro x hxm
+        simp only [List.mem_cons, List.not_mem_nil, or_false] at hxm
+        rcases hxm with rfl | rfl | rfl | rfl <;> exact hx _))
+    exact litBody_append h1 h2
 
-/-- every string printed by strconv.Quote is a complete literal – no condition on the string -/
+/-- every string printed by quoteJSON is a complete literal – no condition on the string -/
 theorem litBody_quoteBody : ∀ (s : Str), litBody (quoteBody s) = true
   | [] => rfl
   | c :: r => by
